@@ -9,6 +9,16 @@ NOTE = ("Trusted base: clang 14 front end + clang::CFG, tools/xzfacts.cc, sa/*.p
         "of the property is NOT decided (see DESIGN.md section 4).")
 
 CLAIMED = {
+ "C04": dict(
+  text="Structural robustness clauses for input-driven code: the bounds fact pos < size is available (must-dataflow on the "
+       "path-sensitive product graph, so disjunctive loop guards keyed on the coder state are exact) at every in[pos] access of "
+       "every (in, pos, size) triple of the decoders and parsers; property bytes read only after the props_size test; copies "
+       "into fixed-size members bounded by constants or proven ranges; path-sensitive interprocedural return-code sets prove "
+       "that no exported function can return an internal code and no coder returns LZMA_BUF_ERROR itself (multi-call VLI calls "
+       "only with a non-empty buffer); the record allocated for each coder is the one its slot functions cast to; allocation "
+       "results are NULL-tested. Absence of ALL memory errors, arithmetic UB and termination are NOT decided.",
+  technique="must-availability dataflow on a finite-domain product graph, interprocedural return-code sets with slot typestate, type-agreement joins",
+  ref="4/C04"),
  "C11": dict(
   text="The transition relation of lzma_code() is extracted by exhaustive finite-domain abstract evaluation of its CFG "
        "(8820 abstract cases: internal sequence x action incl. out-of-range x supported flag x avail_in changed x "
